@@ -8,7 +8,7 @@ import gen_passwords
 import train_util
 
 SITES = ['parser_parse', 'alpha_detect', 'save_pcfg_data', 'save_counter', 'load_file', 'load_base', 'rec_guesses', 'find_children', 'aymc']
-TRUSTED = ['hypotheses of C03_reproduced that are not theorems: AllListed (every tallied item has a non-zero entry in its list: C06_each_once / C06_prob on the writer side, exercised on real trainings), Agree and CaseInvAll as in C13',
+TRUSTED = ['hypotheses of C03_trained_reproduced that are not theorems: Agree (the guesser grammar loaded from the files agrees with the lists the trainer wrote: C07 theorems and file oracle) and CaseInvAll as in C13; AllListed is a theorem now (trained_all_listed over Model/Trainer.lean, whose counters are compared with the real trainer on whole lists by C05 tr.train)',
            'composition of C05 (tiling, masks), C06 (every segment is an entry of its list), C07 (loader returns the same values), C14 '
            '(C<n> inserted after A<n>, skip_brute renormalisation), C04 (expansion = product with masks), C02 (every pre-terminal emitted): '
            'each link is proved on its model; the end-to-end statement is checked here on the real pipeline',
